@@ -14,7 +14,6 @@ package vgirpc
 // checked allocator can see between the two readings are the framework's own.
 
 import (
-	"bytes"
 	"context"
 	"fmt"
 	"io"
@@ -29,82 +28,6 @@ import (
 )
 
 func vf41Outstanding() int64 { return int64(leakCheckAllocator().CurrentAlloc()) }
-
-// ---------------------------------------------------------------------------
-// In-memory external storage + HTTP client
-
-type vf41Store struct {
-	objs       map[string][]byte
-	enc        map[string]string
-	n          int
-	failUpload bool
-	uploads    int
-	fetches    int
-}
-
-func vf41NewStore() *vf41Store {
-	return &vf41Store{objs: map[string][]byte{}, enc: map[string]string{}}
-}
-
-func (s *vf41Store) Upload(data []byte, schema *arrow.Schema, contentEncoding string) (string, error) {
-	s.uploads++
-	if s.failUpload {
-		return "", fmt.Errorf("verif: storage unavailable")
-	}
-	s.n++
-	u := fmt.Sprintf("https://mem.test/up/%d", s.n)
-	s.objs[u] = append([]byte(nil), data...)
-	s.enc[u] = contentEncoding
-	return u, nil
-}
-
-func (s *vf41Store) RoundTrip(r *http.Request) (*http.Response, error) {
-	s.fetches++
-	u := r.URL.String()
-	body, ok := s.objs[u]
-	resp := &http.Response{StatusCode: 200, Status: "200 OK", Proto: "HTTP/1.1", ProtoMajor: 1, ProtoMinor: 1,
-		Header: http.Header{}, Request: r}
-	if !ok {
-		resp.StatusCode, resp.Status = 404, "404 Not Found"
-		body = []byte("no such object")
-	}
-	if e := s.enc[u]; e != "" {
-		resp.Header.Set("Content-Encoding", e)
-	}
-	resp.Body = io.NopCloser(bytes.NewReader(body))
-	resp.ContentLength = int64(len(body))
-	return resp, nil
-}
-
-const (
-	vf41URLx      = "https://mem.test/obj/x"       // one int64 x batch (valid request / input)
-	vf41URL2      = "https://mem.test/obj/two"     // two data batches in one stream
-	vf41URLlog    = "https://mem.test/obj/log"     // log batch, then data batch
-	vf41URLjunk   = "https://mem.test/obj/junk"    // end-of-stream marker without a schema
-	vf41URLtrunc  = "https://mem.test/obj/trunc"   // valid schema, truncated record batch
-	vf41URLloop   = "https://mem.test/obj/loop"    // data batch, then a pointer batch
-	vf41URLabsent = "https://mem.test/obj/missing" // 404
-)
-
-func (s *vf41Store) preload() {
-	b1, b2 := vfI64Batch("x", 5), vfI64Batch("x", 6)
-	defer b1.Release()
-	defer b2.Release()
-	s.objs[vf41URLx] = vfStreamBytes(vfXSchema, b1)
-	s.objs[vf41URL2] = vfStreamBytes(vfXSchema, b1, b2)
-	lg := vf37ZeroRows(vfXSchema, MetaLogLevel, "INFO", MetaLogMessage, "hello")
-	defer lg.Release()
-	s.objs[vf41URLlog] = vfStreamBytes(vfXSchema, lg, b1)
-	// Not "random text": the IPC reader would take its first four bytes as a
-	// ~1.9 GB message length and allocate that much. An end-of-stream marker
-	// with no schema is rejected immediately.
-	s.objs[vf41URLjunk] = []byte{0xff, 0xff, 0xff, 0xff, 0, 0, 0, 0}
-	full := s.objs[vf41URLx]
-	s.objs[vf41URLtrunc] = append([]byte(nil), full[:len(full)-40]...)
-	ptr := vf37ZeroRows(vfXSchema, MetaLocation, vf41URLx)
-	defer ptr.Release()
-	s.objs[vf41URLloop] = vfStreamBytes(vfXSchema, b1, ptr)
-}
 
 // ---------------------------------------------------------------------------
 // Extra call kinds
@@ -124,87 +47,6 @@ func vf41PlainKinds() []vf37Kind {
 	return k
 }
 
-// external kinds: Via names how the request / the inputs travel.
-func vf41ExtKinds() []vf37Kind {
-	return []vf37Kind{
-		{Name: "u-ok", Class: "ok", Method: "u_ok", X: 5, Dispatched: true},
-		{Name: "u-big", Class: "ext-upload", Method: "u_big", X: 9000, Dispatched: true},
-		{Name: "prod-big", Class: "ext-upload", Method: "prod", Stream: 1, X: 14, In: []string{"t", "t"}, Dispatched: true},
-		{Name: "exch-big", Class: "ext-upload", Method: "exch", Stream: 2, X: 9, In: []string{"i"}, Dispatched: true},
-		{Name: "exch-err", Class: "handler-error", Method: "exch", Stream: 2, X: 2, In: []string{"i", "i"}, Dispatched: true},
-		{Name: "req-ptr-unary", Class: "ext-request", Method: "u_ok", X: 5, Via: vf41URLx, Dispatched: true},
-		{Name: "req-ptr-init", Class: "ext-request", Method: "exch", Stream: 2, X: 6, In: []string{"i"}, Via: vf41URLx, Dispatched: true},
-		{Name: "req-ptr-404", Class: "ext-request-404", Method: "u_ok", X: 5, Via: vf41URLabsent},
-		{Name: "req-ptr-junk", Class: "ext-request-junk", Method: "u_ok", X: 5, Via: vf41URLjunk},
-		{Name: "req-ptr-trunc", Class: "ext-request-trunc", Method: "u_ok", X: 5, Via: vf41URLtrunc},
-		{Name: "req-ptr-two", Class: "ext-request-2batch", Method: "u_ok", X: 5, Via: vf41URL2, Dispatched: true},
-		{Name: "req-ptr-log", Class: "ext-request-log+data", Method: "u_ok", X: 5, Via: vf41URLlog, Dispatched: true},
-		{Name: "req-ptr-loop", Class: "ext-request-loop", Method: "u_ok", X: 5, Via: vf41URLloop},
-		{Name: "in-ptr", Class: "ext-input", Method: "exch", Stream: 2, X: 6, In: []string{"P" + vf41URLx, "i"}, Dispatched: true},
-		{Name: "in-ptr-404", Class: "ext-input-404", Method: "exch", Stream: 2, X: 6, In: []string{"i", "P" + vf41URLabsent}, Dispatched: true},
-		{Name: "in-ptr-two", Class: "ext-input-2batch", Method: "exch", Stream: 2, X: 6, In: []string{"P" + vf41URL2}, Dispatched: true},
-		{Name: "in-ptr-junk", Class: "ext-input-junk", Method: "exch", Stream: 2, X: 6, In: []string{"P" + vf41URLjunk}, Dispatched: true},
-		{Name: "in-ptr-trunc", Class: "ext-input-trunc", Method: "exch", Stream: 2, X: 6, In: []string{"i", "P" + vf41URLtrunc}, Dispatched: true},
-	}
-}
-
-func vf41PtrBatch(url string, kv ...string) arrow.RecordBatch {
-	return vf37ZeroRows(vfXSchema, append([]string{MetaLocation, url}, kv...)...)
-}
-
-// vf41ExtEnv wires the override hooks for the external kinds.
-func vf41ExtEnv(env *vf37Env) {
-	env.Segment = func(k *vf37Kind, call int) []byte {
-		// The pipe transport has no external *request* resolution; pointer
-		// requests are an HTTP feature. Only exchange inputs travel as pointers.
-		if k.Stream != 2 {
-			return nil
-		}
-		has := false
-		for _, c := range k.In {
-			if strings.HasPrefix(c, "P") {
-				has = true
-			}
-		}
-		if !has {
-			return nil
-		}
-		p := vf37Params(k)
-		seg := vfRequest(k.Method, p, vf37ReqMeta(k, call, nil)...)
-		p.Release()
-		var batches []arrow.RecordBatch
-		for i, c := range k.In {
-			if strings.HasPrefix(c, "P") {
-				batches = append(batches, vf41PtrBatch(c[1:]))
-			} else {
-				batches = append(batches, vf37InputBatch(c, i))
-			}
-		}
-		seg = append(seg, vfStreamBytes(vfXSchema, batches...)...)
-		for _, b := range batches {
-			b.Release()
-		}
-		return seg
-	}
-	env.HTTPBody = func(k *vf37Kind, call int, what string, i int, cursor, callTok string) []byte {
-		if what == "first" {
-			if k.Via == "" {
-				return nil
-			}
-			meta := append([]string{MetaMethod, k.Method, MetaRequestVersion, ProtocolVersion}, vf37ReqMeta(k, call, nil)...)
-			pb := vf41PtrBatch(k.Via, meta...)
-			defer pb.Release()
-			return vfStreamBytes(vfXSchema, pb)
-		}
-		if strings.HasPrefix(what, "P") {
-			pb := vf41PtrBatch(what[1:], MetaStreamState, cursor, MetaCallState, callTok)
-			defer pb.Release()
-			return vfStreamBytes(vfXSchema, pb)
-		}
-		return nil
-	}
-}
-
 // ---------------------------------------------------------------------------
 // Shared memory (pipe only)
 
@@ -220,6 +62,111 @@ func vf41ShmKinds() []vf37Kind {
 		{Name: "exch-shm-in", Class: "shm-input", Method: "exch", Stream: 2, X: 6, In: []string{"S", "i"}, Dispatched: true},
 		{Name: "exch-shm-in-bad", Class: "shm-input-bad", Method: "exch", Stream: 2, X: 6, In: []string{"i", "B"}, Dispatched: true},
 		{Name: "exch-err", Class: "handler-error", Method: "exch", Stream: 2, X: 2, In: []string{"S", "S"}, Dispatched: true},
+		{Name: "wide-prod", Class: "shm-wide", Method: "wide_prod", Stream: 1, X: 1, In: []string{"t", "t", "t"}, Dispatched: true},
+		{Name: "wide-exch", Class: "shm-wide", Method: "wide_exch", Stream: 2, X: 1, In: []string{"i", "S"}, Dispatched: true},
+	}
+}
+
+// ---- wide batches on a tight / nearly full segment
+//
+// AllocateAndWrite first asks canFitLocked(bufferSize+4096) and only then
+// builds the exact IPC payload; a batch with a wide schema has framing far
+// above the 4 KiB allowance, so on a segment whose free gap lies between the
+// estimate and the exact size the pre-check passes and the exact slot
+// allocation fails (the batch then travels inline).
+
+const vf41WideCols = 200
+
+var vf41WideSchema = func() *arrow.Schema {
+	fs := make([]arrow.Field, vf41WideCols)
+	for i := range fs {
+		fs[i] = arrow.Field{Name: fmt.Sprintf("measurement_column_%03d", i), Type: arrow.PrimitiveTypes.Int64}
+	}
+	return arrow.NewSchema(fs, nil)
+}()
+
+func vf41WideRow(base int64) map[string][]interface{} {
+	row := map[string][]interface{}{}
+	for i := 0; i < vf41WideCols; i++ {
+		row[fmt.Sprintf("measurement_column_%03d", i)] = []interface{}{base + int64(i)}
+	}
+	return row
+}
+
+// Vf41Wide emits one wide row per turn through EmitMap (framework allocator);
+// as a producer it finishes on its third turn.
+type Vf41Wide struct{ N int }
+
+func (w *Vf41Wide) Produce(ctx context.Context, out *OutputCollector, cc *CallContext) error {
+	w.N++
+	vf37User("wide-produce#%d", w.N)
+	if w.N > 2 {
+		return out.Finish()
+	}
+	return out.EmitMap(vf41WideRow(int64(w.N)))
+}
+
+func (w *Vf41Wide) Exchange(ctx context.Context, in arrow.RecordBatch, out *OutputCollector, cc *CallContext) error {
+	w.N++
+	vf37User("wide-exchange#%d", w.N)
+	return out.EmitMap(vf41WideRow(int64(w.N)))
+}
+
+func init() { RegisterStateType(&Vf41Wide{}) }
+
+func vf41WideMethods(s *Server) {
+	mk := func(ctx context.Context, cc *CallContext, p VfXParams) (*StreamResult, error) {
+		vf37User("init:wide(%d)", p.X)
+		return &StreamResult{OutputSchema: vf41WideSchema, State: &Vf41Wide{}}, nil
+	}
+	Producer(s, "wide_prod", vf41WideSchema, mk)
+	Exchange(s, "wide_exch", vf41WideSchema, vf37InSchema, mk)
+}
+
+// vf41WideSizes returns the pre-check estimate and the exact slot size of one
+// wide row (computed once, on a roomy scratch segment).
+var vf41WideEst, vf41WideExact int
+
+func vf41WideSizes() (est, exact int) {
+	if vf41WideExact != 0 {
+		return vf41WideEst, vf41WideExact
+	}
+	js := "[{"
+	for i := 0; i < vf41WideCols; i++ {
+		if i > 0 {
+			js += ","
+		}
+		js += fmt.Sprintf(`"measurement_column_%03d":%d`, i, i)
+	}
+	js += "}]"
+	b := vfBatchJSON(vf41WideSchema, js)
+	defer b.Release()
+	seg, err := ShmCreate(ShmHeaderSize + 1<<20)
+	if err != nil {
+		panic(err)
+	}
+	defer seg.Close()
+	_, n, ok, err := seg.AllocateAndWrite(b)
+	if err != nil || !ok {
+		panic(fmt.Sprintf("vf41WideSizes: ok=%v err=%v", ok, err))
+	}
+	vf41WideEst, vf41WideExact = estimateSerializedSize(b), n
+	return vf41WideEst, vf41WideExact
+}
+
+// vf41FillTo allocates a filler slot so that the free tail of seg is gap bytes.
+func vf41FillTo(seg *ShmSegment, gap int) {
+	seg.mu.Lock()
+	defer seg.mu.Unlock()
+	end := uint64(ShmHeaderSize)
+	for _, e := range seg.readAllocs() {
+		if e[0]+e[1] > end {
+			end = e[0] + e[1]
+		}
+	}
+	free := int(uint64(seg.size) - end)
+	if free > gap {
+		seg.allocateLocked(free - gap)
 	}
 }
 
@@ -398,16 +345,37 @@ func TestVerif_C41(t *testing.T) {
 	shm := vf41ShmKinds()
 	venum.Explore(t, venum.Cfg{Name: "shm-histories", Shardable: true}, func(x *venum.X) {
 		hist := vf37ChooseHistory(x, shm, venum.QT(2, 3))
-		seg, err := ShmCreate(ShmHeaderSize + 512*1024)
+		// roomy | tight: the whole data area lies between the pre-check estimate
+		// and the exact size of a wide row | nearly-full: a roomy segment whose
+		// free tail is cut down to that gap before the first call.
+		layout := x.Pick("segment", "roomy", "tight", "nearly-full")
+		est, exact := vf41WideSizes()
+		if exact <= est+64 {
+			x.Failf("C41:harness:wide-sizes", "wide row: estimate %d, exact %d — no gap to aim at", est, exact)
+			return
+		}
+		gap := (est + exact) / 2
+		size := ShmHeaderSize + 512*1024
+		if layout == "tight" {
+			size = ShmHeaderSize + gap
+		}
+		seg, err := ShmCreate(size)
 		if err != nil {
 			x.Failf("C41:harness:shm-create", "ShmCreate: %v", err)
 			return
 		}
 		defer seg.Close()
-		env := &vf37Env{Hook: hookOf(x)}
+		env := &vf37Env{Hook: hookOf(x), ExtraMethods: vf41WideMethods}
 		vf41ShmEnv(env, seg)
-		done := vf41Probe(x, "pipe-shm", env, hist)
+		if layout == "nearly-full" {
+			env.OnUnitStart = func(u *vf37Unit) {
+				if u.Idx == 0 {
+					vf41FillTo(seg, gap)
+				}
+			}
+		}
+		done := vf41Probe(x, "pipe-shm:"+layout, env, hist)
 		run := vf37RunHistory(hist, false, env)
-		x.Outcome("shm allocs=%d | %s", seg.numAllocs(), done(run))
+		x.Outcome("shm %s allocs=%d | %s", layout, seg.numAllocs(), done(run))
 	})
 }
